@@ -10,7 +10,7 @@ value expr: {"$r":pid} raw payload | int/str/None | [..] list | {"$set":[..]} | 
 import typing
 from . import faults
 
-LEAFISH = ("leaf", "leaf2", "keyleaf", "int", "str", "rleaf", "rkey")
+LEAFISH = ("leaf", "leaf2", "keyleaf", "int", "str", "rleaf", "rkey", "dcitem")
 RULE_ORIGIN = {"rleaf": "leaf", "rkey": "keyleaf"}
 
 
@@ -20,6 +20,8 @@ def build_type(t, env=None):
         return faults.LEAF_TYPES[k]
     if k in RULE_ORIGIN:
         return faults.rule_leaves()[k]
+    if k == "dcitem":
+        return faults.dc_item()
     if k == "int":
         return int
     if k == "str":
@@ -119,9 +121,13 @@ def gen_scalar(rng, allow_union=True, rule_leaves=False, all_of=False, one_of=Fa
     return ["opt", ["leaf"]]
 
 
-def gen_container(rng, depth, rule_leaves=False, all_of=False):
+def gen_container(rng, depth, rule_leaves=False, all_of=False, dc_items=False):
     """A container type of nesting depth `depth` (>=1) over leaf scalars."""
     inner = gen_scalar(rng, rule_leaves=rule_leaves, all_of=all_of) if depth <= 1 else gen_container(rng, depth - 1, rule_leaves, all_of)
+    if dc_items and depth <= 1 and rng.random() < 0.2:
+        # elements that are data classes (kept in lists / tuples / dict values only: not hashable)
+        k = rng.choice(["list", "tup", "dict"])
+        return ["dict", ["str"], ["dcitem"]] if k == "dict" else [k, ["dcitem"]]
     k = rng.choice(["list", "list", "set", "tup", "dict", "dict", "fset"])
     if k in ("set", "fset") and not is_scalar(inner):
         k = "list"  # set elements must be hashable
@@ -150,6 +156,14 @@ def gen_value(rng, t, pool, positions, path=()):
         pid = pool.next()
         positions.append((list(path), k, pid))
         return {"$r": pid}
+    if k == "dcitem":
+        d = rng.choice([{}, {"a": "zz"}, {"a": 1}, {"a": 1, "b": 2}, {"b": "3"}, {"a": "zz", "b": 1}, {"l": None}])
+        d = dict(d)
+        if "l" in d:
+            pid = pool.next()
+            positions.append((list(path), "leaf", pid))
+            d["l"] = {"$r": pid}
+        return d
     if k == "int":
         return rng.choice([1, 2, 3, "4", 5])
     if k == "str":
